@@ -120,7 +120,7 @@ classes (0 when there is none); the class end symbol starts at 0. -/
 theorem class_intro_image (objs : List InSec) (cx : Ctx) (cname : Str) (vc : VramClass)
     (st : St) (ho : Outside st) (ev : Str → Nat) (k : List Line)
     (hfs : ∀ fs, vc.fixedVram = none → vc.fixedSymbol = some fs → lookupLast fs st.syms = some (.num (ev fs)))
-    (hfo : vc.fixedVram = none → vc.fixedSymbol = none → ∀ o ∈ vc.followsClasses,
+    (hfo : vc.fixedVram = none → vc.fixedSymbol = none → ∀ o ∈ followedUsed cx vc,
       lookupLast (cx.d.settings.style.classEnd o) st.syms = some (.num (ev (cx.d.settings.style.classEnd o)))) :
     let st' := execK objs st (classIntro cx cname vc) k
     Outside st' ∧ st'.dot = st.dot ∧ st'.secs = st.secs ∧
@@ -130,7 +130,7 @@ theorem class_intro_image (objs : List InSec) (cx : Ctx) (cname : Str) (vc : Vra
        | some v => v
        | none => match vc.fixedSymbol with
          | some fs => ev fs
-         | none => (vc.followsClasses.map cx.d.settings.style.classEnd).foldl (fun m o => max m (ev o)) 0)) := by
+         | none => ((followedUsed cx vc).map cx.d.settings.style.classEnd).foldl (fun m o => max m (ev o)) 0)) := by
   intro st'
   generalize hsty : cx.d.settings.style = sty at *
   have hS := endsOk_ne_dot _ (classStart_ok sty cname)
@@ -152,7 +152,7 @@ theorem class_intro_image (objs : List InSec) (cx : Ctx) (cname : Str) (vc : Vra
       | none => match vc.fixedSymbol with
         | some fs => [linkerSym (sty.classStart cname) (.sym fs)]
         | none => linkerSym (sty.classStart cname) (.hex8 0) ::
-            vc.followsClasses.map (fun other => maxSelf (sty.classStart cname) (sty.classEnd other)))
+            (followedUsed cx vc).map (fun other => maxSelf (sty.classStart cname) (sty.classEnd other)))
       ++ [linkerSym (sty.classEnd cname) (.hex8 0), Line.blank] := by
     unfold classIntro; rw [hsty]; cases vc.fixedVram <;> cases vc.fixedSymbol <;> rfl
   show _ ∧ _ ∧ _ ∧ _ ∧ _
@@ -183,18 +183,18 @@ theorem class_intro_image (objs : List InSec) (cx : Ctx) (cname : Str) (vc : Vra
     | none =>
       simp only []
       rw [show (linkerSym (sty.classStart cname) (.hex8 0) ::
-            vc.followsClasses.map (fun other => maxSelf (sty.classStart cname) (sty.classEnd other)))
+            (followedUsed cx vc).map (fun other => maxSelf (sty.classStart cname) (sty.classEnd other)))
           = [linkerSym (sty.classStart cname) (.hex8 0)] ++
-            (vc.followsClasses.map sty.classEnd).map (fun o => maxSelf (sty.classStart cname) o) by simp [List.map_map, Function.comp_def],
+            ((followedUsed cx vc).map sty.classEnd).map (fun o => maxSelf (sty.classStart cname) o) by simp [List.map_map, Function.comp_def],
         execK_append]
       have e1 : execK objs st [linkerSym (sty.classStart cname) (.hex8 0)]
-          ((vc.followsClasses.map sty.classEnd).map (fun o => maxSelf (sty.classStart cname) o) ++ ([linkerSym (sty.classEnd cname) (.hex8 0), Line.blank] ++ k))
+          (((followedUsed cx vc).map sty.classEnd).map (fun o => maxSelf (sty.classStart cname) o) ++ ([linkerSym (sty.classEnd cname) (.hex8 0), Line.blank] ++ k))
           = { st with syms := st.syms ++ [(sty.classStart cname, Val.num 0)] } := by
         simp only [execK, List.nil_append]
         unfold linkerSym
         rw [step_assign_sym objs st _ _ _ _ _ _ hS ho.nd]; simp [eval]
       rw [e1]
-      obtain ⟨m1, m2, m3, m4, _⟩ := max_run objs (sty.classStart cname) hS ev (vc.followsClasses.map sty.classEnd)
+      obtain ⟨m1, m2, m3, m4, _⟩ := max_run objs (sty.classStart cname) hS ev ((followedUsed cx vc).map sty.classEnd)
         { st with syms := st.syms ++ [(sty.classStart cname, Val.num 0)] } ⟨ho.cur, ho.nd⟩ 0 (by simp [lookupLast_snoc])
         (by
           intro o ho'
